@@ -168,6 +168,9 @@ class DecoratorManager(ABC):
 
     async def start(self):
         """Start all decorators."""
+        if self.status is DecoratorManagerStatus.STOPPED:
+            # dropped while its context was still loading (delayed start): nothing to start
+            return
         if self.status is not DecoratorManagerStatus.VALIDATED:
             raise RuntimeError(f"Starting not valid {self}")
 
